@@ -47,7 +47,7 @@ ASSUMPTIONS = [
     "date microseconds are restricted to values llbase's text date parser does not truncate (int(float('0.x')*1e6), "
     "third-party code)",
 ]
-MUST_REACH = {"msg_roundtrips_after_template_reload": 50, "calls_from_concurrent_threads": 1000, "msg_roundtrips_custom_template": 300, "msg_dict_roundtrips": 400, "msg_xml_roundtrips": 400, "templates_covered": 481, "tree_roundtrips": 2000,
+MUST_REACH = {"eq_events_converted_back": 40, "eq_messages_edited_between_injection_and_poll": 5, "msg_roundtrips_after_template_reload": 50, "calls_from_concurrent_threads": 1000, "msg_roundtrips_custom_template": 300, "msg_dict_roundtrips": 400, "msg_xml_roundtrips": 400, "templates_covered": 481, "tree_roundtrips": 2000,
               "codec_binary": 300, "codec_binary_noheader": 300, "codec_zipped": 300, "codec_notation": 300, "codec_xml": 300,
               "dates_checked": 100, "aware_dates_checked": 20, "uris_checked": 50, "newline_strings_checked": 50,
               "quaternion_messages": 5, "tz_covered": 3, "u64_messages": 10, "ip_messages": 5}
@@ -491,7 +491,123 @@ def template_reload(ctx, rng):
     del CONFIGS["reloaded"]
 
 
+def eq_injection(ctx, rng):
+    """The consumer named in the property: EventQueueManager.inject_message() puts a templated message's LLSD form on a region's
+    event queue. What the viewer is then handed must convert back to the message as it was WHEN IT WAS INJECTED, one event per
+    injection, in injection order - also when the caller goes on using (editing, re-injecting) its Message object afterwards, and
+    when plain events are queued in between."""
+    import copy
+    from ..harness_proxy import Rig
+    from .c05 import RecTransport
+    from hippolyzer.lib.proxy.settings import ProxySettings
+    templates = [t for t in gen_msg.all_templates()]
+    rig = Rig(settings=ProxySettings())
+    try:
+        sess = rig.add_session(("10.1.0.1", 13001))
+        region = sess.regions[0]
+        sess.open_circuit(("10.0.0.1", 40001), region.circuit_addr, RecTransport())
+        eq = region.eq_manager
+        ser = LLSDMessageSerializer()
+        for rnd in range(ctx.pick(25, 400)):
+            expected = []       # ("msg", independent copy) / ("event", dict)
+            held = []
+            for k in range(rng.randint(1, 5)):
+                what = rng.choice(["new", "new", "same-again", "edited-again", "plain"])
+                if what == "plain":
+                    ev = {"message": "HVPlain", "body": {"serial": rnd * 10 + k}}
+                    eq.inject_event(ev)
+                    expected.append(("event", copy.deepcopy(ev)))
+                    continue
+                if what == "new" or not held:
+                    tmpl = rng.choice(templates)
+                    spec = None
+                    for _ in range(8):
+                        cand = gen_msg.gen_spec(rng, tmpl, {"xml_safe": True, "flags": 0, "p_extra": 0, "max_var_len": 60, "small_block": 3})
+                        if finite_spec(cand) and _xml_ok(cand):
+                            spec = cand
+                            break
+                    if spec is None:
+                        continue
+                    spec["acks"] = []
+                    m = gen_msg.build_message(spec)
+                    held.append([m, tmpl, spec])
+                else:
+                    ent = rng.choice(held)
+                    m, tmpl, spec = ent
+                    if what == "edited-again":
+                        # the caller edits its object in place (another value of the right type for every field) and sends it again
+                        for _ in range(8):
+                            cand = gen_msg.gen_spec(rng, tmpl, {"xml_safe": True, "flags": 0, "p_extra": 0, "max_var_len": 60, "small_block": 3})
+                            if finite_spec(cand) and _xml_ok(cand):
+                                break
+                        else:
+                            continue
+                        cand["acks"] = []
+                        other = gen_msg.build_message(cand)
+                        for bn, blks in other.blocks.items():
+                            mine = m.blocks.get(bn, [])
+                            for mb, ob in zip(mine, blks):
+                                for vn, val in ob.vars.items():
+                                    mb[vn] = val
+                        ctx.count("eq_messages_edited_between_injection_and_poll")
+                # what the message is now, taken by an independent conversion of an independent copy
+                try:
+                    snap = ser.deserialize(copy.deepcopy(ser.serialize(m, True)))
+                    eq.inject_message(m)
+                except Exception as e:
+                    ctx.violation("eq-inject-raises:" + type(e).__name__, "injecting a templated message into the event queue raised",
+                                  {"message": m.name, "exc": repr(e)[:300], "kind": "eq"})
+                    return
+                expected.append(("msg", snap))
+                ctx.count("eq_messages_injected")
+            # the caller's objects go on living: scribble on all of them before the viewer polls
+            for m, tmpl, spec in held:
+                for blks in m.blocks.values():
+                    for b in blks:
+                        for vn in list(b.vars):
+                            v = b.vars[vn]
+                            if isinstance(v, int) and not isinstance(v, bool) and 0 <= v < 100:
+                                b[vn] = v + 1
+                            elif isinstance(v, str):
+                                b[vn] = v + "~"
+            try:
+                events = eq.take_injected_events()
+            except Exception as e:
+                ctx.violation("eq-take-raises:" + type(e).__name__, "taking the queued events raised", {"exc": repr(e)[:300], "kind": "eq"})
+                return
+            ctx.ev()
+            wit = {"kind": "eq", "round": rnd, "queued": [(k, (v.name if k == "msg" else v)) for k, v in expected]}
+            if len(events) != len(expected):
+                ctx.violation("eq-event-count", "the number of events handed to the poll differs from the number injected",
+                              dict(wit, got=len(events)))
+                return
+            for i, ((kind, want), ev) in enumerate(zip(expected, events)):
+                if kind == "event":
+                    if ev != want:
+                        ctx.violation("eq-plain-event-changed", "a plain injected event changed on the queue", dict(wit, index=i, got=repr(ev)[:200]))
+                        return
+                    continue
+                try:
+                    back = ser.deserialize(copy.deepcopy(ev))
+                    prob = msg_problem(want, back)
+                except Exception as e:
+                    prob = "converting the queued event back raised " + repr(e)[:200]
+                if prob:
+                    ctx.violation("eq-event-not-the-injected-message", "an event taken from the queue does not convert back to the "
+                                  "message that was injected (as it was at injection)", dict(wit, index=i, problem=prob[:300]))
+                    return
+                ctx.count("eq_events_converted_back")
+            ctx.nontrivial(("eq", tuple(k for k, _ in expected)))
+            if eq.take_injected_events():
+                ctx.violation("eq-events-handed-out-twice", "events were still queued after they had been taken", wit)
+                return
+    finally:
+        rig.close()
+
+
 def run(ctx):
+    if ctx.shard == 2 % max(ctx.nshards, 1) or not ctx.quick:
+        eq_injection(ctx, ctx.rng)
     threads_phase(ctx, ctx.rng)      # (thread timing is a matter of chance: every shard has a go)
     if ctx.shard == 1 % max(ctx.nshards, 1):
         template_reload(ctx, ctx.rng)
@@ -567,6 +683,8 @@ def _xml_ok(spec):
 
 
 def replay(ctx, w):
+    if w.get("kind") == "eq":
+        return eq_injection(ctx, ctx.rng)
     if "spec" in w:
         if w.get("tz"):
             os.environ["TZ"] = w["tz"]
